@@ -961,6 +961,12 @@ class Server:
                     except errors.PathIOError:
                         connection.response("451", "file system error")
                         continue
+                    except asyncio.CancelledError:
+                        # transfer aborted outside of the `worker` decorator:
+                        # while waiting for data connection or before start
+                        connection.response("426", "transfer aborted")
+                        connection.response("226", "abort successful")
+                        continue
                     # this is "command" result
                     if isinstance(result, bool):
                         if not result:
@@ -1547,8 +1553,9 @@ class Server:
 
     @ConnectionConditions(ConnectionConditions.login_required)
     async def abor(self, connection, rest):
-        if connection.extra_workers:
-            for worker in connection.extra_workers:
+        workers = [w for w in connection.extra_workers if not w.done()]
+        if workers:
+            for worker in workers:
                 worker.cancel()
         else:
             connection.response("226", "nothing to abort")
